@@ -45,3 +45,16 @@ _hspec("detach#Branch", lean="branch_detach", file="swcgeom/core/branch.py", cls
 _hspec("detach#Compartment", lean="tcomp_detach", file=_COMP, cls="Compartment", func="detach", params=["self"],
        vars={"self": "Path", "attact": "DictSWC", "k": "String"}, ret="Path", ctors={"DictSWC": "dictswc_init", "Compartment": "tcomp_init"},
        stmt_subst=_DETACH_SUBST)
+
+# ----------------------------------------------------------------------------- C05 / C07: the public wrapper of the tree sort  ->  Gen/AlgoSortWrap.lean
+#   swcgeom/core/tree_utils.py::sort_tree = `return _sort_tree(tree.copy())`
+# The tree is its column variables (as for `_sort_tree` / `redirect_tree` in translate_algo.py).  TRUSTED GLUE: `tree_cols` names the expression
+# `tree.copy()` as the tree whose columns are the local variables `ids`, `pids`, `types`: `Tree.copy()` is `deepcopy` (translated as DictSWC.copy in
+# Gen/AlgoViews.lean, `C09.generated_copy`): the same column VALUES in fresh storage, so the callee's in-place update lands in the locals and the
+# caller's tree keeps its columns (the function is pure in Lean; that the input is unchanged is observed by the c05 suite, `*_input_unchanged`).
+# If the text of the call changes (e.g. `_sort_tree(tree)`, no copy) the key no longer matches and the translation FAILS.
+MODULE_IMPORTS["AlgoSortWrap"] = ["AlgoRedirect"]
+spec(lean="sort_tree", module="AlgoSortWrap", file="swcgeom/core/tree_utils.py", func="sort_tree", params=["ids", "pids", "types"],
+     vars={"ids": "List Int", "pids": "List Int", "types": "List Int"}, ret="Unit", out=["ids", "pids", "types"], fuel=True,
+     tree_cols={"tree.copy()": {"id": "ids", "pid": "pids", "type": "types"}},
+     doc="`swcgeom/core/tree_utils.py::sort_tree` (the copy of the tree is the local columns `ids`, `pids`, `types`; they are returned)")
